@@ -5,7 +5,7 @@ From Gopki.Model Require Import Bytes Base64 Pem Der Asn1 Text Algs Glue Pkcs8 E
 From Gopki.Spec Require Import RegenSpec DirInv MergeSpec ValidateSpec X509Spec ExtSpec AdmissionSpec PolicySpec.
 From Gopki.Proofs Require Import RunProofs ExtProofs PlanProofs WfProofs X509Proofs DerProofs Asn1Proofs TimeRangeProofs RdnProofs GenerateProofs ValidateProofs TimeProofs AlgsProofs Base64Proofs PolicyProofs MergeProofs CliProofs OpsProofs FaultProofs HistoryProofs HashViewProofs Pkcs8Proofs RecoverProofs PemTornProofs AdmissionProofs PemProofs GlueProofs.
 From Gopki.Model Require Import Effective.
-From Gopki.Proofs Require Import EffectiveProofs.
+From Gopki.Proofs Require Import EffectiveProofs ValidityProofs.
 Import ListNotations.
 
 (* every valid calendar date written YYYY-MM-DD is read as that year, month and day *)
@@ -40,3 +40,87 @@ Theorem C04_own_validity_wins_iff_set :
                      else if validity_is_set (pr_validity pr) then pr_validity pr else cc_validity c.
 Proof. exact effective_validity. Qed.
 Print Assumptions C04_own_validity_wins_iff_set.
+
+(* what the validity block means, case by case: without `from` the start is the time of the run, with it local midnight of
+   that date; `until` is read the same way; a `duration` is calendar-added to the start; with neither the lifetime is five
+   years; `until` and `duration` exclude each other; no accepted block ends after the year 9999 *)
+Theorem C04_validity_block_rules :
+  forall (v : validity_cfg) (now : wall) (r : validity),
+    to_time_struct (negb (fx_date cur_mfx)) v now = Some r ->
+    (v_from v = [] -> vl_from r = now /\ vl_is_static r = false) /\
+    (v_from v <> [] -> exists y m d, parse_date (negb (fx_date cur_mfx)) (v_from v) = Some (y, m, d)
+                                    /\ vl_from r = mkWall y m d 0 /\ vl_is_static r = true) /\
+    (v_until v = [] -> v_duration v = [] -> vl_until r = add_date (vl_from r) 5 0 0) /\
+    (v_until v <> [] -> v_duration v = [] /\ exists y m d, parse_date (negb (fx_date cur_mfx)) (v_until v) = Some (y, m, d)
+                                    /\ vl_until r = mkWall y m d 0) /\
+    (v_duration v <> [] -> v_until v = [] /\ exists y m d, parse_duration (v_duration v) = Some (y, m, d)
+                                    /\ vl_until r = add_date (vl_from r) y m d) /\
+    (w_y (vl_until r) <= 9999)%Z.
+Proof. exact (validity_rules (negb (fx_date cur_mfx))). Qed.
+Print Assumptions C04_validity_block_rules.
+
+(* the day-count algorithms behind AddDate invert each other on every date of the proleptic Gregorian calendar, any year *)
+Theorem C04_calendar_roundtrip :
+  forall y m d : Z, (1 <= m <= 12)%Z -> (1 <= d <= days_in_month y m)%Z ->
+    civil_from_days (days_from_civil y m d) = (y, m, d).
+Proof. exact civil_roundtrip. Qed.
+Print Assumptions C04_calendar_roundtrip.
+
+(* calendar addition: N years and M months on is the same day of the month, M months later with the year carried,
+   whenever that day exists there (otherwise it is carried into the following month: `add_date_carries`) *)
+Theorem C04_duration_is_calendar_addition :
+  forall (t : wall) (dy dm : Z),
+    let m0 := (w_m t - 1 + dm)%Z in
+    let y1 := (w_y t + dy + m0 / 12)%Z in
+    let m1 := (m0 mod 12 + 1)%Z in
+    (1 <= w_d t <= days_in_month y1 m1)%Z ->
+    add_date t dy dm 0 = mkWall y1 m1 (w_d t) (w_sod t).
+Proof. exact add_date_calendar. Qed.
+Print Assumptions C04_duration_is_calendar_addition.
+
+(* the default lifetime is five years to the day *)
+Theorem C04_default_five_years :
+  forall t : wall, (1 <= w_m t <= 12)%Z -> (1 <= w_d t <= days_in_month (w_y t + 5) (w_m t))%Z ->
+    add_date t 5 0 0 = mkWall (w_y t + 5) (w_m t) (w_d t) (w_sod t).
+Proof. exact five_years_to_the_day. Qed.
+Print Assumptions C04_default_five_years.
+
+(* UTCTime through 2049, GeneralizedTime from 2050 (and before 1950); nothing after 9999 is written *)
+Theorem C04_time_type_by_year :
+  forall (c : civil) (t : tlv), der_time c = Some t ->
+    (cv_year c <= 9999)%N /\
+    ((1950 <= cv_year c < 2050)%N -> t = Prim Univ 23 (two_digits (cv_year c mod 100) ++ time_tail c)) /\
+    ((cv_year c < 1950 \/ 2050 <= cv_year c)%N -> t = Prim Univ 24 (four_digits (cv_year c) ++ time_tail c)).
+Proof. exact der_time_form. Qed.
+Print Assumptions C04_time_type_by_year.
+
+Theorem C04_time_is_zulu_13_or_15_octets :
+  forall (c : civil) (t : tlv), der_time c = Some t ->
+    match t with
+    | Prim Univ 23 b => List.length b = 13%nat /\ last b (n2b 0) = n2b 90
+    | Prim Univ 24 b => List.length b = 15%nat /\ last b (n2b 0) = n2b 90
+    | _ => False
+    end.
+Proof. exact der_time_length. Qed.
+Print Assumptions C04_time_is_zulu_13_or_15_octets.
+
+(* every day number, before and after the epoch, is turned into a calendar-valid date whose day number it is *)
+Theorem C04_day_number_roundtrip :
+  forall z : Z,
+    let '(y, m, d) := civil_from_days z in
+    days_from_civil y m d = z /\ (1 <= m <= 12)%Z /\ (1 <= d <= days_in_month y m)%Z.
+Proof. exact days_roundtrip. Qed.
+Print Assumptions C04_day_number_roundtrip.
+
+(* a duration with days: the end is a calendar-valid date exactly (day of the month - 1 + D) days after the first of the
+   month reached by adding the years and months, at the same time of day - for every start and every duration *)
+Theorem C04_duration_days_exact :
+  forall (t : wall) (dy dm dd : Z),
+    let m0 := (w_m t - 1 + dm)%Z in
+    let y1 := (w_y t + dy + m0 / 12)%Z in
+    let m1 := (m0 mod 12 + 1)%Z in
+    let r := add_date t dy dm dd in
+    days_from_civil (w_y r) (w_m r) (w_d r) = (days_from_civil y1 m1 1 + (w_d t + dd - 1))%Z
+    /\ (1 <= w_m r <= 12)%Z /\ (1 <= w_d r <= days_in_month (w_y r) (w_m r))%Z /\ w_sod r = w_sod t.
+Proof. exact add_date_days. Qed.
+Print Assumptions C04_duration_days_exact.
